@@ -141,7 +141,10 @@ def gen_case(rng):
         late = [net["targets"][-1]["id"], j]
     # the consumer may partition the agents over two tasking engines: stored observations then cross the partition
     split = len(net["sensors"]) >= 2 and len(net["targets"]) >= 2 and rng.random() < 0.4
-    return {"kind": "c19", "split_engines": split, "late": late, "net": net, "steps": steps, "edit": edit_kind, "imported": imported, "extra_agents": extra, "gap": gap,
+    # imported observations next to live tasking (realtime_observation stays on); in half of those the consumer's sensors see
+    # nothing, so the engine tasks no one and only the stored observations can reach the filters
+    return {"kind": "c19", "obs_next_to_live_tasking": (live := rng.random() < 0.4), "blind_consumer": live and rng.random() < 0.5,
+            "split_engines": split, "late": late, "net": net, "steps": steps, "edit": edit_kind, "imported": imported, "extra_agents": extra, "gap": gap,
             "imported_obs": (imp_obs := rng.random() < 0.6), "dup_obs": imp_obs and rng.random() < 0.35, "edit_seed": rng.randrange(1 << 30)}
 
 
@@ -191,8 +194,13 @@ def eval_case(ctx, case):
     cfg["time"]["stop_timestamp"] = sk.iso(start + timedelta(seconds=(steps + 1) * net["step"]))
     cfg["propagation"]["target_realtime_propagation"] = case["imported"] not in ("targets", "both")
     cfg["propagation"]["sensor_realtime_propagation"] = case["imported"] not in ("sensors", "both")
-    if case["imported_obs"]:
+    if case["imported_obs"] and not case.get("obs_next_to_live_tasking"):
         cfg["observation"]["realtime_observation"] = False
+    if case["imported_obs"] and case.get("blind_consumer"):
+        for e_ in cfg["engines"]:
+            for sc in e_["sensors"]:
+                sc["sensor"]["elevation_range"] = [89.0, 89.99999]
+        ctx.count("consumers_with_blind_sensors_next_to_stored_observations")
     imported_ids = []
     if case["imported"] in ("targets", "both"):
         imported_ids += [t["id"] for t in net["targets"] if not (late and t["id"] == late[0])]
@@ -327,6 +335,12 @@ def run(ctx):
         if ctx.time_left() < 12:
             break
         case = gen_case(rng)
+        if i == 0:
+            # once per shard, whatever the draw: stored observations next to live tasking with a consumer whose sensors see nothing
+            case.update({"imported_obs": True, "dup_obs": False, "obs_next_to_live_tasking": True, "blind_consumer": True, "gap": None, "late": None,
+                         "edit": "exact", "extra_agents": 0, "steps": max(case["steps"], 4)})
+        elif i == 1 and not case["late"] and len(case["net"]["targets"]) >= 2 and case["imported"] in ("targets", "both") and case["gap"] is None:
+            case["late"] = [case["net"]["targets"][-1]["id"], 1]  # and a target that joins the importer-driven run late
         ok = eval_case(ctx, case)
         ctx.count("edit_" + case["edit"])
         ctx.case((case["net"]["start"], case["net"]["seed"], case["edit"], case["imported"], case["extra_agents"], str(case["gap"]), case["imported_obs"]),
